@@ -213,7 +213,7 @@ prop(
     shards={"quick": 16, "thorough": 16},
     min_evaluations={"quick": 150, "thorough": 1500},
     must_see=[("deviation_detected", 100), ("step_families_faulted", 20), ("honest_runs_validated_and_opened", 5), ("lane_attack_detected", 5), ("reveal_flavours_faulted", 6), ("altered_copy_rejected", 30), ("opened_key_attack_detected", 40), ("opened_key_honest_controls_accepted", 8),
-              ("rushing_attack_decided", 60), ("rushing_controls_decided", 30)],
+              ("rushing_attack_decided", 60), ("rushing_controls_decided", 30), ("validation_failed_nothing_opened", 50)],
     watchdog_s={"quick": 1200, "thorough": 7200},
 )
 
